@@ -15,15 +15,16 @@ impl LedgerCase {
             csv: crate::gen::to_csv(&self.rows),
             rows: self.rows.iter().map(|r| r.to_json()).collect::<Vec<_>>(),
             opening: self.opening.iter().map(|(s, n, c)| format!("{s}:{n}:{c}")).collect::<Vec<_>>(),
+            tags: self.tags.iter().filter(|t| t.contains(':')).cloned().collect::<Vec<_>>(),
         }
     }
     pub fn from_json(v: &JsonValue) -> Option<LedgerCase> {
         let rows: Option<Vec<HRow>> = v["rows"].members().map(HRow::from_json).collect();
         let opening: Option<Vec<(String, String, String)>> = v["opening"].members().map(|o| { let s = o.as_str()?; let p: Vec<&str> = s.split(':').collect(); if p.len() == 3 { Some((p[0].to_string(), p[1].to_string(), p[2].to_string())) } else { None } }).collect();
-        Some(LedgerCase { rows: rows?, opening: opening?, tags: vec![] })
+        Some(LedgerCase { rows: rows?, opening: opening?, tags: v["tags"].members().filter_map(|t| t.as_str().map(|s| s.to_string())).collect() })
     }
     pub fn files(&self) -> Vec<(String, String)> { vec![("f0.csv".to_string(), crate::gen::to_csv(&self.rows))] }
-    pub fn run_opts(&self) -> RunOpts { RunOpts { symbol_base: crate::gen::symbol_base_strings(&self.opening), usd_years: crate::gen::usd_years(&self.rows), date_fmt: None } }
+    pub fn run_opts(&self) -> RunOpts { RunOpts { symbol_base: crate::gen::symbol_base_strings(&self.opening), usd_years: crate::gen::usd_years(&self.rows), date_fmt: None, stale_cache_until: None } }
     pub fn opening_for(&self, sec: &str) -> Option<(Rat, Rat)> { self.opening.iter().find(|o| o.0 == sec).map(|o| (Rat::parse(&o.1).unwrap(), Rat::parse(&o.2).unwrap())) }
     pub fn sec_rows(&self, sec: &str) -> Vec<HRow> { self.rows.iter().filter(|r| r.sec == sec).cloned().collect() }
     pub fn secs(&self) -> Vec<String> { let mut v: Vec<String> = self.rows.iter().map(|r| r.sec.clone()).collect(); v.sort(); v.dedup(); v }
